@@ -150,8 +150,8 @@ Contract(
 )
 
 
-def _w_names(c):
-    w = c.arg("self")
+def _w_names(c, w=None):
+    w = c.arg("self") if w is None else w
     return w, wres(c.pre, w)
 
 
@@ -168,39 +168,40 @@ def _dict_mods(c, t, d, parts=("len", "keys", "idx", "dom", "val")):
     return {c.pre.carr(t, p)[0]: [d] for p in parts}
 
 
-def _place_mod(c):
-    w, R = _w_names(c)
+def _place_mod(c, w=None, task=None, s=None):
+    w, R = _w_names(c, w)
     m = am(c.pre, R)
-    task = c.arg("task")
+    task = c.arg("task") if task is None else task
     lst0 = z3.If(c.pre.d_dom(AM, m, task), c.pre.d_val(AM, m, task), 0)
     out = _res_mods(c, R, lst0)
     out.update(_dict_mods(c, PT, wpt(c.pre, w)))
     out.update(_dict_mods(c, PB, wpb(c.pre, w)))
     out.update(_dict_mods(c, BT, wbt(c.pre, w)))
-    s = c.arg("execution_strategy")
+    s = c.arg("execution_strategy") if s is None else s
     set0 = z3.If(c.pre.d_dom(PB, wpb(c.pre, w), s), c.pre.d_val(PB, wpb(c.pre, w), s), 0)
     out.update({c.pre.carr(TS, p)[0]: [set0] for p in ("len", "keys", "idx", "dom")})
     return out
 
 
-def _place_raises_value(c):
-    w, R = _w_names(c)
-    s = c.arg("execution_strategy")
+def _place_raises_value(c, w=None, task=None, s=None):
+    w, R = _w_names(c, w)
+    s = c.arg("execution_strategy") if s is None else s
     nofit = z3.Not(fits(c.pre, R, c.pre, sres(c.pre, s)))
     newbatch = z3.And(is_batch(c.pre, s), z3.Not(c.pre.d_dom(PB, wpb(c.pre, w), s)))
     return z3.Or(z3.And(z3.Not(is_batch(c.pre, s)), nofit), z3.And(newbatch, z3.Or(c.pre.rd(s, STRAT, "_batch_size")[1] < 1, nofit)))
 
 
-def _place_raises_runtime(c):
-    w, R = _w_names(c)
-    s = c.arg("execution_strategy")
+def _place_raises_runtime(c, w=None, task=None, s=None):
+    w, R = _w_names(c, w)
+    s = c.arg("execution_strategy") if s is None else s
     pb = wpb(c.pre, w)
     return z3.And(is_batch(c.pre, s), c.pre.d_dom(PB, pb, s), c.pre.c_len(TS, c.pre.d_val(PB, pb, s)) + 1 > c.pre.rd(s, STRAT, "_batch_size")[1])
 
 
-def _place_ens(c):
-    w, R = _w_names(c)
-    s, task = c.arg("execution_strategy"), c.arg("task")
+def _place_ens(c, w=None, task=None, s=None):
+    w, R = _w_names(c, w)
+    s = c.arg("execution_strategy") if s is None else s
+    task = c.arg("task") if task is None else task
     pt, pb = wpt(c.pre, w), wpb(c.pre, w)
     t = z3.Int(H.fresh_name("pe_t"))
     out = {
@@ -210,6 +211,16 @@ def _place_ens(c):
             z3.And(is_batch(c.pre, s), c.pre.d_dom(PB, pb, s)), z3.And(V(c.post, rv(c.pre, R)) == V(c.pre, rv(c.pre, R)), c.post.c_len(TS, c.pre.d_val(PB, pb, s)) == c.pre.c_len(TS, c.pre.d_val(PB, pb, s)) + 1)
         ),
     }
+    b_ = z3.Int(H.fresh_name("pe_b"))
+    # batches: the old ones keep their member-set objects; the only batch that can appear is `s`, with a fresh set
+    out["place.batches_old_or_fresh"] = z3.ForAll(
+        [b_],
+        z3.Implies(
+            c.post.d_dom(PB, pb, b_),
+            z3.Or(z3.And(c.pre.d_dom(PB, pb, b_), c.post.d_val(PB, pb, b_) == c.pre.d_val(PB, pb, b_)), z3.And(b_ == s, c.post.d_val(PB, pb, b_) >= c.alloc0)),
+        ),
+        patterns=[c.post.d_dom(PB, pb, b_)],
+    )
     for nm, g in wf_worker_parts(c.post, w).items():
         out["place.preserves_WF." + nm] = g
     return out
@@ -253,31 +264,32 @@ def closed_wmaps(c):
 
 
 # ---- remove_task ------------------------------------------------------------------------------------------
-def _remove_mod(c):
-    w, R = _w_names(c)
+def _remove_mod(c, w=None, task=None, s=None):
+    w, R = _w_names(c, w)
     out = {c.pre.carr(RV, "val")[0]: [rv(c.pre, R)]}
     for part in ("len", "keys", "idx", "dom"):
         out[c.pre.carr(AM, part)[0]] = [am(c.pre, R)]
     out.update(_dict_mods(c, PT, wpt(c.pre, w), ("len", "keys", "idx", "dom")))
     out.update(_dict_mods(c, PB, wpb(c.pre, w)))
     out.update(_dict_mods(c, BT, wbt(c.pre, w), ("len", "keys", "idx", "dom")))
-    s = c.pre.d_val(PT, wpt(c.pre, w), c.arg("task"))
+    task = c.arg("task") if task is None else task
+    s = c.pre.d_val(PT, wpt(c.pre, w), task)
     set0 = z3.If(c.pre.d_dom(PB, wpb(c.pre, w), s), c.pre.d_val(PB, wpb(c.pre, w), s), 0)
     out.update({c.pre.carr(TS, p)[0]: [set0] for p in ("len", "keys", "idx", "dom")})
     return out
 
 
-def _remove_raises(c):
-    w, R = _w_names(c)
-    task = c.arg("task")
+def _remove_raises(c, w=None, task=None, s=None):
+    w, R = _w_names(c, w)
+    task = c.arg("task") if task is None else task
     pt = wpt(c.pre, w)
     s = c.pre.d_val(PT, pt, task)
     return z3.Or(z3.Not(c.pre.d_dom(PT, pt, task)), z3.And(z3.Not(is_batch(c.pre, s)), z3.Not(c.pre.d_dom(AM, am(c.pre, R), task))))
 
 
-def _remove_ens(c):
-    w, R = _w_names(c)
-    task = c.arg("task")
+def _remove_ens(c, w=None, task=None, s=None):
+    w, R = _w_names(c, w)
+    task = c.arg("task") if task is None else task
     pt, pb = wpt(c.pre, w), wpb(c.pre, w)
     s = c.pre.d_val(PT, pt, task)
     t = z3.Int(H.fresh_name("re_t"))
@@ -296,6 +308,11 @@ def _remove_ens(c):
         "remove.batch_kept_while_members_remain": z3.Implies(z3.And(is_batch(c.pre, s), z3.Not(last)), z3.And(c.post.d_dom(PB, pb, s), c.post.d_dom(AM, am(c.pre, R), holder))),
         "remove.batch_dropped_with_last_member": z3.Implies(last, z3.And(z3.Not(c.post.d_dom(PB, pb, s)), z3.Not(c.post.d_dom(BT, wbt(c.pre, w), s)), z3.Not(c.post.d_dom(AM, am(c.pre, R), holder)))),
     }
+    b_ = z3.Int(H.fresh_name("re_b"))
+    # the batches that remain are batches that were there, with the same member-set objects (no container is created)
+    out["remove.remaining_batches_are_old"] = z3.ForAll(
+        [b_], z3.Implies(c.post.d_dom(PB, pb, b_), z3.And(c.pre.d_dom(PB, pb, b_), c.post.d_val(PB, pb, b_) == c.pre.d_val(PB, pb, b_))), patterns=[c.post.d_dom(PB, pb, b_)]
+    )
     for nm, g in wf_worker_parts(c.post, w).items():
         out["remove.preserves_WF." + nm] = g
     return out
